@@ -139,7 +139,7 @@ func runSessions(g *Gen, sessions int, stats map[string]interface{}) {
 		g.setup(withContracts)
 		nb := 6 + g.r.Intn(10)
 		for b := 0; b < nb; b++ {
-			k := g.r.Pick(1, 1, 1, 2, 3, 4)
+			k := g.r.Pick(1, 1, 2, 2, 3, 4)
 			for i := 0; i < k; i++ {
 				switch {
 				case g.r.Chance(1, 7):
@@ -351,7 +351,7 @@ func runSearch(g *Gen, n int, stats map[string]interface{}) {
 		setupLines := snapshotLines(w)
 		nb := 10 + g.r.Intn(10)
 		for b := 0; b < nb && evals < n; b++ {
-			k := g.r.Pick(1, 1, 2)
+			k := g.r.Pick(1, 2, 2, 3)
 			for i := 0; i < k; i++ {
 				if withContracts && g.r.Chance(3, 5) {
 					g.contractTx(i == 0)
